@@ -146,6 +146,27 @@ func runC27(c *Ctx) {
 								okS = true
 							}
 						}
+						// the comparison conjoined with other tests into a local (`m := len(a) == len(b) && cmp == 1`):
+						// the boolean is true only along the edge that evaluated cmp == 1
+						if phi, ok := g.Cond.(*ssa.Phi); ok && g.Truth {
+							conj := len(phi.Edges) > 0
+							sawCmp := false
+							for _, e := range phi.Edges {
+								if k, isK := e.(*ssa.Const); isK && k.Value != nil && k.Value.String() == "false" {
+									continue
+								}
+								if b, isB := e.(*ssa.BinOp); isB && (b.X == cs.Value() || b.Y == cs.Value()) && b.Op == token.EQL {
+									if k, _ := ConstInt(b.Y); k == 1 {
+										sawCmp = true
+										continue
+									}
+								}
+								conj = false
+							}
+							if conj && sawCmp {
+								okS = true
+							}
+						}
 					}
 				}
 			}
@@ -258,7 +279,8 @@ func runC27(c *Ctx) {
 		Instrs(vf, func(in ssa.Instruction) {
 			if ifi, ok := in.(*ssa.If); ok {
 				d := u.Describe(ifi.Cond)
-				if strings.Contains(d, `.Scheme != "https"`) || strings.Contains(d, `.Scheme != "http"`) {
+				// written as a refusal (`!= "http" && != "https"`) or as a switch over the two accepted schemes
+				if strings.Contains(d, `.Scheme != "https"`) || strings.Contains(d, `.Scheme != "http"`) || strings.Contains(d, `.Scheme == "https"`) {
 					schemeRef = true
 				}
 			}
